@@ -42,6 +42,47 @@ def _cu():
     return cu
 
 
+def _pq(qdesc):
+    """The Quantity of a description - or, with "unc" (relative error bar), the quantities.UncertainQuantity of the same
+    magnitude and unit.  The helpers only look at magnitude and unit, so every reference value is unchanged."""
+    q = G.pq_quantity(qdesc)
+    if qdesc.get("unc") and hasattr(q, "units"):
+        import numpy as np
+        import quantities as pq
+        return pq.UncertainQuantity(q.magnitude, q.units, np.abs(q.magnitude) * qdesc["unc"])
+    return q
+
+
+def _mark_uncertain(draw, obj):
+    """Turns a random subset of the quantity descriptions of a case (dicts with "mag" and non-empty "units") into
+    UncertainQuantities."""
+    if isinstance(obj, dict):
+        if "mag" in obj and obj.get("units") and draw(st.booleans()):
+            obj["unc"] = 0.01
+        for k in obj:
+            _mark_uncertain(draw, obj[k])
+    elif isinstance(obj, list):
+        for v in obj:
+            _mark_uncertain(draw, v)
+
+
+@st.composite
+def with_uncertain(draw, strategy, one_in=5):
+    """One case in `one_in`: some of its quantities carry an error bar (first of the range = none: shrink target)."""
+    case = draw(strategy)
+    if draw(st.integers(0, one_in - 1)) == one_in - 1:
+        _mark_uncertain(draw, case)
+    return case
+
+
+def _has_uncertain(obj):
+    if isinstance(obj, dict):
+        return bool(obj.get("unc")) or any(_has_uncertain(v) for v in obj.values())
+    if isinstance(obj, list):
+        return any(_has_uncertain(v) for v in obj)
+    return False
+
+
 def _finite(x):
     try:
         return math.isfinite(float(x))
@@ -141,7 +182,7 @@ def check_convert(case, ctx):
     if not _in_range(ref, ref_mid, G.ref_si(q), G.target_factor(t), G.target_factor(mid)):
         ctx.skip("out_of_double_range")
         return
-    Q, T, MID = G.pq_quantity(q), G.pq_target(t), G.pq_target(mid)
+    Q, T, MID = _pq(q), G.pq_target(t), G.pq_target(mid)
     unc = G.rel_unc(q["units"]) + G.rel_unc(t["units"])
     unc_mid = G.rel_unc(mid["units"])
     r = sut(cu.to_unitless, Q, T)
@@ -177,9 +218,9 @@ def check_convert(case, ctx):
     # linearity: to_unitless(a*q + q2) = a*to_unitless(q) + to_unitless(q2); tolerance relative to the sum of
     # the absolute terms (the two terms may cancel)
     a, m2 = case["a"], case["m2"]
-    q2 = {"mag": m2, "units": q["units"]}
-    lhs = sut(cu.to_unitless, a * Q + G.pq_quantity(q2), T)
-    rq2 = sut(cu.to_unitless, G.pq_quantity(q2), T)
+    q2 = {"mag": m2, "units": q["units"], "unc": q.get("unc")}    # (`quantities` cannot add a Quantity to an UncertainQuantity)
+    lhs = sut(cu.to_unitless, a * Q + _pq(q2), T)
+    rq2 = sut(cu.to_unitless, _pq(q2), T)
     if is_err(lhs) or is_err(rq2):
         ctx.fail("compatible_target_rejected", error=repr(lhs if is_err(lhs) else rq2), which="linear")
         return
@@ -249,7 +290,7 @@ def container_cases(draw):
 
 def build_container(kind, elems):
     import numpy as np
-    qs = [G.pq_quantity(e) for e in elems]
+    qs = [_pq(e) for e in elems]
     if kind == "list":
         return qs
     if kind == "tuple":
@@ -386,7 +427,7 @@ def check_incompatible(case, ctx):
             value = list(vals)
         got = sut(cu.to_unitless, value, G.pq_target(t))
     elif brk["mode"] == "no_target":
-        value = build_container(kind, elems) if kind != "scalar" else G.pq_quantity(elems[0])
+        value = build_container(kind, elems) if kind != "scalar" else _pq(elems[0])
         if brk["delta"] > 0:
             got = sut(cu.to_unitless, value)
         else:
@@ -394,7 +435,7 @@ def check_incompatible(case, ctx):
     else:
         if G.dim([u for u in elems[brk["pos"]]["units"]]) == G.dim(t["units"]):
             raise AssertionError("generator produced a compatible pair")
-        value = build_container(kind, elems) if kind != "scalar" else G.pq_quantity(elems[0])
+        value = build_container(kind, elems) if kind != "scalar" else _pq(elems[0])
         got = sut(cu.to_unitless, value, G.pq_target(t))
     if not is_err(got):
         ctx.fail("incompatible_target_accepted", returned=repr(got)[:200])
@@ -444,7 +485,7 @@ def check_registry(case, ctx):
     if any(reg[d][1] != 1.0 for d in G.DIMS):
         ctx.label("reg_scaled")
     ctx.nontrivial(nsi >= 2 and G.n_dimensions(units0) >= 2)
-    value = G.pq_quantity(elems[0]) if kind == "scalar" else build_container(kind, elems)
+    value = _pq(elems[0]) if kind == "scalar" else build_container(kind, elems)
     REG = G.pq_registry(reg)
     # (a) physical dimensionality = vector of non-zero exponents
     got = cu.get_physical_dimensionality(value)
@@ -799,7 +840,7 @@ def backend_cases(draw):
 
 
 def _build_arg(a, extra=None):
-    q = G.pq_quantity({"mag": a["mag"], "units": a["units"]})
+    q = _pq({"mag": a["mag"], "units": a["units"], "unc": a.get("unc")})
     v = q / G.pq_target(a["t"])
     if extra is not None:
         v = v * G.pq_unit([extra])
@@ -813,7 +854,7 @@ def _build_args(args, form, extra=None):
     if form == "list":
         return [_build_arg(a, extra if i == len(args) - 1 else None) for i, a in enumerate(args)]
     a0 = args[0]
-    q = np.array([a["mag"] for a in args], dtype=float) * G.pq_unit(a0["units"]) / G.pq_target(a0["t"])
+    q = _pq({"mag": [a["mag"] for a in args], "units": a0["units"], "unc": a0.get("unc")}) / G.pq_target(a0["t"])
     if extra is not None:
         q = q * G.pq_unit([extra])
     return q
@@ -1030,22 +1071,35 @@ def allclose_cases(draw):
         sb = sa + Fraction(thetas[i]) * lim
         a.append(qa)
         b.append({"mag": _mag_for(sb, bu), "units": bu})
+    # operands with an error bar (quantities.UncertainQuantity): first, second or both; sometimes atol too
+    uq = draw(st.sampled_from(["none", "b", "a", "both", "none", "b"]))
+    for which, elems in (("a", a), ("b", b)):
+        if uq in (which, "both"):
+            for i, e in enumerate(elems):
+                if form != "list" or i == 0 or draw(st.booleans()):
+                    e["unc"] = 0.01
+    if atol and draw(st.integers(0, 3)) == 3:
+        atol["unc"] = 0.01
     return {"form": form, "a": a, "b": b, "rtol": rtol, "atol": atol, "via": draw(st.sampled_from(["units", "pnp"]))}
 
 
 def _build_form(form, elems):
     import numpy as np
     if form == "scalar":
-        return G.pq_quantity(elems[0])
+        return _pq(elems[0])
     if form == "qarray":
-        return np.array([e["mag"] for e in elems], dtype=float) * G.pq_unit(elems[0]["units"])
-    return [G.pq_quantity(e) for e in elems]
+        return _pq({"mag": [e["mag"] for e in elems], "units": elems[0]["units"], "unc": elems[0].get("unc")})
+    return [_pq(e) for e in elems]
 
 
 def check_allclose(case, ctx):
     cu = _cu()
     form, a, b, rtol, atol = case["form"], case["a"], case["b"], case["rtol"], case["atol"]
     ctx.label("form=" + form, "atol" if atol else "no_atol")
+    ua, ub = _has_uncertain(a), _has_uncertain(b)
+    ctx.label("uncertain=%s" % ("both" if ua and ub else "a" if ua else "b" if ub else "none"))
+    if atol and atol.get("unc"):
+        ctx.label("uncertain_atol")
     allu = [u for e in a + b for u in e["units"]]
     _labels(ctx, allu)
     # expected from the description: every |a_i - b_i| <= rtol*|a_i| + atol, all in SI; cases within 10 % of the
@@ -1074,7 +1128,7 @@ def check_allclose(case, ctx):
     ctx.label("expected=%s" % expected)
     kw = {"rtol": rtol}
     if atol:
-        kw["atol"] = G.pq_quantity(atol)
+        kw["atol"] = _pq(atol)
     got = _helper(cu, "allclose", case["via"])(_build_form(form, a), _build_form(form, b), **kw)
     if bool(got) != expected:
         ctx.fail("allclose", got=repr(got), expected=expected)
@@ -1096,8 +1150,8 @@ def _build_member(form, elems):
     """list / tuple of scalar quantities (each in its own unit), or one Quantity array in the unit of elems[0]."""
     import numpy as np
     if form == "qarray":
-        return np.array([e["mag"] for e in elems], dtype=float) * G.pq_unit(elems[0]["units"])
-    qs = [G.pq_quantity(e) for e in elems]
+        return _pq({"mag": [e["mag"] for e in elems], "units": elems[0]["units"], "unc": elems[0].get("unc")})
+    qs = [_pq(e) for e in elems]
     return tuple(qs) if form == "tuple" else qs
 
 
@@ -1127,7 +1181,7 @@ def spacing_cases(draw, log=False):
 
 
 def _q_or_number(qd):
-    return G.pq_quantity(qd) if qd["units"] else qd["mag"]
+    return _pq(qd) if qd["units"] else qd["mag"]
 
 
 def _check_spacing_vec(case, ctx, log):
@@ -1233,6 +1287,8 @@ def check_logspace(case, ctx):
 def concat_cases(draw):
     """1-4 members; a member is a Quantity array (one unit) or a plain list / tuple of scalar quantities, each in its
     own compatible unit - in the first and in later positions."""
+    if draw(st.integers(0, 9)) >= 7:
+        return draw(concat2d_cases())
     n = draw(st.integers(1, 4))
     first = draw(G.quantities(max_factors=3, array=4))
     arrays = []
@@ -1246,11 +1302,89 @@ def concat_cases(draw):
                                "units": _or(draw(G.compatible_units(G.dim(first["units"]))), first["units"])})
         else:
             arrays.append({"form": form, "elems": draw(_members_of_dim(first["units"], draw(st.integers(1, 4))))})
+    # numpy's keyword passes through: for 1-D members 0, -1 and None all mean the same as no axis at all
     return {"arrays": arrays, "via": draw(st.sampled_from(["units", "pnp"])),
+            "outer": draw(st.sampled_from(["tuple", "list"])), "axis": draw(st.sampled_from(["default", 0, -1, None]))}
+
+
+AXES_2D = [1, "default", -1, None, 0, -2]
+
+
+@st.composite
+def concat2d_cases(draw):
+    """2-4 two-dimensional members (Quantity arrays or nested lists of scalar quantities in their own units) whose
+    shapes fit the drawn axis (0 / -2: same number of columns; 1 / -1: same number of rows; None: any)."""
+    axis = draw(st.sampled_from(AXES_2D))
+    R, C = draw(st.integers(1, 3)), draw(st.integers(1, 3))
+    units0 = draw(G.unit_products(1, 3, 2))
+    arrays = []
+    for i in range(draw(st.integers(2, 4))):
+        r, c = draw(st.integers(1, 3)), draw(st.integers(1, 3))
+        if axis in ("default", 0, -2):
+            c = C
+        elif axis in (1, -1):
+            r = R
+        form = draw(st.sampled_from(["qarray2d", "nested"]))
+        if form == "qarray2d":
+            units = units0 if i == 0 or draw(st.booleans()) else _or(draw(G.compatible_units(G.dim(units0))), units0)
+            arrays.append({"form": form, "mag": [[draw(G.magnitudes()) for _ in range(c)] for _ in range(r)], "units": units})
+        else:
+            arrays.append({"form": form, "rows": [draw(_members_of_dim(units0, c)) for _ in range(r)]})
+    return {"ndim": 2, "arrays": arrays, "axis": axis, "via": draw(st.sampled_from(["units", "pnp"])),
             "outer": draw(st.sampled_from(["tuple", "list"]))}
 
 
+def check_concatenate2d(case, ctx):
+    import numpy as np
+    cu = _cu()
+    arrays, axis = case["arrays"], case["axis"]
+    rows, objs, flatq = [], [], []
+    for a in arrays:
+        if a["form"] == "qarray2d":
+            rows.append(G.ref_si(a))
+            objs.append(_pq(a))
+            flatq.append(a)
+        else:
+            rows.append([[G.ref_si(q) for q in row] for row in a["rows"]])
+            objs.append([[_pq(q) for q in row] for row in a["rows"]])
+            flatq.extend(q for row in a["rows"] for q in row)
+    _labels(ctx, [u for q in flatq for u in q["units"]])
+    ctx.label("narrays=%d" % len(arrays), "ndim=2", "axis=%s" % (axis,))
+    if len(set(short(q["units"]) for q in flatq)) > 1:
+        ctx.label("mixed_units")
+    refs_all = [x for m in rows for row in m for x in row]
+    if not _in_range(*refs_all) or not _in_range(*[G.factor(q["units"]) for q in flatq]):
+        ctx.skip("out_of_double_range")
+        return
+    # the plain routine on the values in one unit, written out: rows appended / rows joined / everything flattened
+    if axis is None:
+        want, shape = refs_all, (len(refs_all),)
+    elif axis in (1, -1):
+        want2 = [[x for m in rows for x in m[k]] for k in range(len(rows[0]))]
+        want, shape = [x for row in want2 for x in row], (len(want2), len(want2[0]))
+    else:
+        want2 = [row for m in rows for row in m]
+        want, shape = [x for row in want2 for x in row], (len(want2), len(want2[0]))
+    kw = {} if axis == "default" else {"axis": axis}
+    got = sut(_helper(cu, "concatenate", case["via"]), tuple(objs) if case["outer"] == "tuple" else objs, **kw)
+    if is_err(got):
+        ctx.fail("concatenate_raised", error=repr(got), axis=repr(axis))
+        return
+    si, dv = G.observe(got)
+    if tuple(dv) != G.dim(flatq[0]["units"]):
+        ctx.fail("concatenate_dimension", got=list(dv))
+        return
+    arr = np.asarray(si, dtype=float)
+    if tuple(arr.shape) != tuple(shape):
+        ctx.fail("concatenate_shape", got=list(arr.shape), expected=list(shape), axis=repr(axis))
+        return
+    unc = sum(G.rel_unc(q["units"]) for q in flatq)
+    _cmp_array(ctx, "concatenate", arr.ravel(), want, 2 * TOL + unc, axis=repr(axis))
+
+
 def check_concatenate(case, ctx):
+    if case.get("ndim") == 2:
+        return check_concatenate2d(case, ctx)
     cu = _cu()
     arrays = case["arrays"]
     members = [a["elems"] if "form" in a else [a] for a in arrays]         # quantity descriptions per member
@@ -1265,8 +1399,11 @@ def check_concatenate(case, ctx):
     if not _in_range(*refs) or not _in_range(*[G.factor(q["units"]) for q in flatq]):
         ctx.skip("out_of_double_range")
         return
-    objs = [_build_member(a["form"], a["elems"]) if "form" in a else G.pq_quantity(a) for a in arrays]
-    got = _helper(cu, "concatenate", case["via"])(tuple(objs) if case["outer"] == "tuple" else objs)
+    objs = [_build_member(a["form"], a["elems"]) if "form" in a else _pq(a) for a in arrays]
+    axis = case.get("axis", "default")
+    ctx.label("ndim=1", "axis=%s" % (axis,))
+    got = _helper(cu, "concatenate", case["via"])(tuple(objs) if case["outer"] == "tuple" else objs,
+                                                  **({} if axis == "default" else {"axis": axis}))
     si, dv = G.observe(got)
     if tuple(dv) != G.dim(flatq[0]["units"]):
         ctx.fail("concatenate_dimension", got=list(dv))
@@ -1287,8 +1424,10 @@ def tile_cases(draw):
         if kind == "qarray2d":
             q["mag"] = [q["mag"], [draw(G.magnitudes()) for _ in q["mag"]]]
         elems = [q]
-    reps = draw(st.one_of(st.integers(1, 3), st.lists(st.integers(1, 3), min_size=2, max_size=2)))
-    return {"kind": kind, "elems": elems, "reps": reps, "via": draw(st.sampled_from(["units", "pnp"]))}
+    reps = draw(st.one_of(st.integers(1, 3), st.lists(st.integers(1, 3), min_size=2, max_size=2),
+                          st.lists(st.integers(1, 2), min_size=1, max_size=3)))
+    return {"kind": kind, "elems": elems, "reps": reps, "via": draw(st.sampled_from(["units", "pnp"])),
+            "reps_kw": draw(st.booleans())}
 
 
 def check_tile(case, ctx):
@@ -1296,7 +1435,7 @@ def check_tile(case, ctx):
     cu = _cu()
     kind, elems, reps = case["kind"], case["elems"], case["reps"]
     _labels(ctx, [u for e in elems for u in e["units"]])
-    ctx.label("kind=" + kind, "reps=%s" % ("int" if isinstance(reps, int) else "pair"))
+    ctx.label("kind=" + kind, "reps=%s" % ("int" if isinstance(reps, int) else "tuple%d" % len(reps)))
     if len(set(short(e["units"]) for e in elems)) > 1:
         ctx.label("mixed_units")
     refs = container_refs(kind, elems, G.ref_si)
@@ -1304,7 +1443,12 @@ def check_tile(case, ctx):
     if not _in_range(*flat) or not _in_range(*[G.factor(e["units"]) for e in elems]):
         ctx.skip("out_of_double_range")
         return
-    got = _helper(cu, "tile", case["via"])(build_container(kind, elems), reps if isinstance(reps, int) else tuple(reps))
+    rp = reps if isinstance(reps, int) else tuple(reps)
+    if case.get("reps_kw"):
+        ctx.label("reps_as_keyword")
+        got = _helper(cu, "tile", case["via"])(build_container(kind, elems), reps=rp)
+    else:
+        got = _helper(cu, "tile", case["via"])(build_container(kind, elems), rp)
     si, dv = G.observe(got)
     if tuple(dv) != G.dim(elems[0]["units"]):
         ctx.fail("tile_dimension", got=list(dv))
@@ -1429,7 +1573,7 @@ def check_polyval(case, ctx):
     if not _in_range(*(sp + sx)) or not _in_range(*[G.factor(e["units"]) for e in p + x]):
         ctx.skip("out_of_double_range")
         return
-    P = [G.pq_quantity(e) if e["units"] else e["mag"] for e in p]
+    P = [_pq(e) if e["units"] else e["mag"] for e in p]
     got = sut(_helper(cu, "polyval", case["via"]), P, _build_form(form, x))
     if is_err(got):
         ctx.fail("polyval_raised", error=repr(got))
@@ -1566,14 +1710,14 @@ def check_equality(case, ctx):
     else:
         ctx.label("nearly_equal:not_judged")
         return
-    got = sut(cu.compare_equality, G.pq_quantity(a), G.pq_quantity(b))
+    got = sut(cu.compare_equality, _pq(a), _pq(b))
     if is_err(got):
         ctx.fail("compare_equality_raised", error=repr(got))
         return
     if bool(got) != expected:
         ctx.fail("compare_equality", got=repr(got), expected=expected)
         return
-    got2 = sut(cu.compare_equality, G.pq_quantity(b), G.pq_quantity(a))
+    got2 = sut(cu.compare_equality, _pq(b), _pq(a))
     if case["cls"] != "integer_multiple" and (is_err(got2) or bool(got2) != expected):
         ctx.fail("compare_equality_swapped", got=repr(got2), expected=expected)
 
@@ -1604,17 +1748,26 @@ def hr_cases(draw):
     return {"reg": draw(G.registries(choices=HR_POOL))}
 
 
+def _lab(check):
+    def wrapped(case, ctx):
+        if _has_uncertain(case):
+            ctx.label("uncertain_quantity")
+        return check(case, ctx)
+    wrapped.__name__ = check.__name__
+    return wrapped
+
+
 SUBCHECKS = [
-    SubCheck("convert", check_convert, strategy=convert_cases(), quick=1200, thorough=120000,
+    SubCheck("convert", _lab(check_convert), strategy=with_uncertain(convert_cases()), quick=1200, thorough=120000,
              rule="scalar q, compatible target t and intermediate: ratio, round trip, composition, linearity",
              tolerances={"ratio_rel": TOL, "codata_units_rel_per_exponent": 5e-7}),
-    SubCheck("containers", check_containers, strategy=container_cases(), quick=800, thorough=60000,
+    SubCheck("containers", _lab(check_containers), strategy=with_uncertain(container_cases()), quick=800, thorough=60000,
              rule="list/tuple/Quantity array (1-D, 2-D)/object array/nested list/dict (of scalars, of arrays), mixed "
                   "compatible units: element-wise ratio", tolerances={"rel": TOL}),
-    SubCheck("incompatible", check_incompatible, strategy=incompatible_cases(), quick=800, thorough=60000,
+    SubCheck("incompatible", _lab(check_incompatible), strategy=with_uncertain(incompatible_cases()), quick=800, thorough=60000,
              rule="one exponent off by +-1 or an extra dimension in the target or in one element of a container; "
                   "plain numbers against a dimensional target; dimensional value without target: must raise"),
-    SubCheck("registry", check_registry, strategy=registry_cases(), quick=800, thorough=60000,
+    SubCheck("registry", _lab(check_registry), strategy=with_uncertain(registry_cases()), quick=800, thorough=60000,
              rule="get_physical_dimensionality, default_unit_in_registry, unitless_in_registry for random registries",
              tolerances={"rel": TOL}),
     SubCheck("derived", check_derived, strategy=derived_cases(), enumerate=enum_derived, quick=400, thorough=20000,
@@ -1624,7 +1777,7 @@ SUBCHECKS = [
     SubCheck("human_readable", check_human_readable, strategy=hr_cases(), quick=300, thorough=20000,
              rule="registries over units registered in `quantities` under their own symbol (m cm mm nm km, kg g mg, "
                   "s ms min h, A mA, K mK, mol mmol) with optional scale: to -> from -> to", tolerances={"rel": TOL}),
-    SubCheck("backend", check_backend, strategy=backend_cases(), quick=1300, thorough=80000,
+    SubCheck("backend", _lab(check_backend), strategy=with_uncertain(backend_cases()), quick=1300, thorough=80000,
              rule="Backend('math'|'numpy').f and patched_numpy.f on q/t with dim(q)=dim(t) (scalar, list, array) = f of "
                   "the exact ratio; an argument with a left-over dimension must raise.  40 % of the Backend cases: "
                   "functions of 2-3 positional arguments (pow/power, atan2/arctan2, hypot, fmod, copysign, log(x, base), "
@@ -1632,20 +1785,25 @@ SUBCHECKS = [
                   "positions (plain numbers elsewhere) and the left-over dimension in any one position",
              tolerances={"rel_on_argument": TOL}),
     SubCheck("allclose", check_allclose, strategy=allclose_cases(), quick=500, thorough=30000,
-             rule="b_i = a_i + theta_i*(rtol*|a_i| + atol) in other units, theta in {0, +-.25, +-.5, +-4, 100}"),
-    SubCheck("linspace", check_linspace, strategy=spacing_cases(), quick=300, thorough=20000, tolerances={"rel_of_max_endpoint": 4 * TOL}),
-    SubCheck("logspace", check_logspace, strategy=spacing_cases(log=True), quick=300, thorough=20000, tolerances={"rel": 10 * TOL}),
-    SubCheck("concatenate", check_concatenate, strategy=concat_cases(), quick=400, thorough=25000, tolerances={"rel": 2 * TOL},
+             rule="b_i = a_i + theta_i*(rtol*|a_i| + atol) in other units, theta in {0, +-.25, +-.5, +-4, 100}; a, b or "
+                  "both (and sometimes atol) as UncertainQuantity in two cases out of three"),
+    SubCheck("linspace", _lab(check_linspace), strategy=with_uncertain(spacing_cases()), quick=300, thorough=20000, tolerances={"rel_of_max_endpoint": 4 * TOL}),
+    SubCheck("logspace", _lab(check_logspace), strategy=with_uncertain(spacing_cases(log=True)), quick=300, thorough=20000, tolerances={"rel": 10 * TOL}),
+    SubCheck("concatenate", _lab(check_concatenate), strategy=with_uncertain(concat_cases()), quick=400, thorough=25000, tolerances={"rel": 2 * TOL},
              rule="1-4 members, each a Quantity array or a plain list / tuple of scalar quantities in different compatible "
                   "units (first and later positions); linspace / logspace also with such containers as vector end points, "
-                  "tile / uniform also on tuples and nested lists"),
-    SubCheck("tile", check_tile, strategy=tile_cases(), quick=300, thorough=20000, tolerances={"rel": 2 * TOL}),
-    SubCheck("polyfit", check_polyfit, strategy=polyfit_cases(), quick=300, thorough=20000,
+                  "tile / uniform also on tuples and nested lists; 30 %: 2-4 two-dimensional members (Quantity arrays / nested "
+                  "lists) with axis in {absent, 0, -2, 1, -1, None}, shapes fitted to the axis, values and shape against "
+                  "the routine written out on the SI values; tile: reps int / tuples of length 1-3, positional or keyword.  "
+                  "In all generated sub-checks except compare_equality one case in five turns a random subset of its "
+                  "quantities into quantities.UncertainQuantity (same magnitude and unit, so same reference)"),
+    SubCheck("tile", _lab(check_tile), strategy=with_uncertain(tile_cases()), quick=300, thorough=20000, tolerances={"rel": 2 * TOL}),
+    SubCheck("polyfit", _lab(check_polyfit), strategy=with_uncertain(polyfit_cases()), quick=300, thorough=20000,
              rule="<= 7 points at distinct integer abscissae, degree <= 3, mixed units; exact rational least squares",
              tolerances={"rel_of_natural_scale": 1e-8}),
-    SubCheck("polyval", check_polyval, strategy=polyval_cases(), quick=300, thorough=20000,
+    SubCheck("polyval", _lab(check_polyval), strategy=with_uncertain(polyval_cases()), quick=300, thorough=20000,
              tolerances={"rel_of_sum_abs_terms": 20 * TOL}),
-    SubCheck("uniform", check_uniform, strategy=uniform_cases(), quick=300, thorough=20000, tolerances={"rel": 2 * TOL}),
+    SubCheck("uniform", _lab(check_uniform), strategy=with_uncertain(uniform_cases()), quick=300, thorough=20000, tolerances={"rel": 2 * TOL}),
     SubCheck("compare_equality", check_equality, strategy=equality_cases(), quick=400, thorough=20000,
              rule="same object twice / integer multiples (exact in floats) -> True; >= 1e-7 apart or other dimension -> "
                   "False; equal-up-to-rounding pairs are not judged"),
